@@ -20,7 +20,9 @@ THEOREMS = [P + t for t in (
     "generate_ok_shape", "generated_service", "generate_ok_of_consistent", "catalogued_model_generates",
     "current_models_generate", "current_type_rules", "portBw_spec",
     "units_spec", "enum_length", "enum_exact", "current_enum_members_resolve", "current_enum_nodup",
-    "allocObjs_eq", "sessionObjs_bounds", "generated_objects_fresh")]
+    "allocObjs_eq", "sessionObjs_bounds", "generated_objects_fresh",
+    "generateT_typeTable", "current_member_path_rules", "current_member_entries", "member_path_eq", "current_members_generate",
+    "current_consumer_ops_pure", "consumers_leave_catalogue", "consumer_answers_from_loaded_catalogue", "current_consumer_sessions")]
 TRUSTED_BASE = [
     "gen/catalog.py + gen/symexec.py: the filter predicate is read off a symbolic execution of map_capacities_to_instance on a probe "
     "catalogue; the decision structure (catalogue order, sort head, first equal key, last key) is replayed on ~7.5k probe cases; the "
@@ -83,11 +85,12 @@ def impl_pick(req):
         return ["err", err_kind(e)]
 
 
-def sizing_oracle(req, name, entries, res):
+def sizing_oracle(req, name, entries, res, ref=None):
     """The property itself: sufficient, Pareto-minimal, fallback = largest, name/capacities agree."""
     from fim.slivers.instance_catalog import InstanceCatalog
+    from fim.slivers.capacities_labels import Capacities
     case = {"request": list(req)}
-    caps = InstanceCatalog().get_instance_capacities(instance_type=name)
+    caps = InstanceCatalog().get_instance_capacities(instance_type=name) if ref is None else (Capacities(**ref[name]) if name in ref else None)
     if caps is None:
         res.violation("C18:sizing:unknown-name", "returned name is not in the catalogue", case, observed=name)
         return
@@ -378,10 +381,13 @@ def session_requests(cat, rng):
     return base + [b + ["one-catalog-object"] for b in base]
 
 
-def model_lines(r):
+def model_lines(r, cat=None, ref=None):
     """the request lines the (stateless) model gets for one harness request"""
     if r[0] == "pickseq":
         return [["pick"] + v for v in seq_values(r[2])]
+    if r[0] == "topo":      # through the topology the node's name is the parent; the member path is the model's generateM
+        return [["genm", "c1", r[1], "member", None, None, None, "n1"] if r[2] == "model_type" else
+                genm_as_gen(cat, ["genm", "c1", r[1], "member", None, None, None, "n1"])]
     if r[0] == "session":
         return [r[:2]]
     return [r]
@@ -454,10 +460,10 @@ def comp_requests(rng, thorough):
     return cat, reqs
 
 
-def comp_oracle(cat, req, reply, res):
+def comp_oracle(cat, req, reply, res, case=None, path=""):
     """The property: type, details, exactly the catalogued interfaces with speeds / kinds / unit counts; ids and labels positional."""
     _, name, model, ctype, ns_id, ids, labels, parent = req
-    case = {"request": req}
+    case = case or {"request": req}
     entry = None
     for c in cat:
         if c["Type"] == ctype and (c["Model"] == model or model in (c.get("AlsoModels") or [])):
@@ -479,7 +485,7 @@ def comp_oracle(cat, req, reply, res):
     sig = "C18:component:%s:" % ctype
 
     def bad(kind, what, **kw):
-        res.violation(sig + kind, what, case, **kw)
+        res.violation(sig + kind + path, what + (" (model named through the combined type-model enumeration)" if path else ""), case, **kw)
     if g["model"] != entry["Model"] or g["type"] != entry["Type"]:
         bad("type-model", "generated component has another type/model than its catalogue entry", observed=[g["type"], g["model"]])
     if g["details"] != entry["Details"]:
@@ -543,6 +549,392 @@ def enum_oracle(cat, res):
     return got
 
 
+# ---------------------------------------------------------------- the catalogue as the resource file says (independent reference)
+
+def ref_instances():
+    """name -> {field: value} in FILE order, read from the resource file next to the module under test (never from the
+    implementation's objects: a catalogue damaged in this process must not become the oracle's yardstick)"""
+    import os
+    import fim.slivers.instance_catalog as icm
+    with open(os.path.join(os.path.dirname(icm.__file__), "data", "instance_sizes.json")) as f:
+        return json.load(f)
+
+
+def _full(c):
+    return None if c is None else tuple(sorted((k, v) for k, v in c.__dict__.items()))
+
+
+def catalogue_damage(ref):
+    """names whose capacities, as the implementation serves them NOW (by name and in the listing), are not the file's"""
+    from fim.slivers.instance_catalog import InstanceCatalog
+    from fim.slivers.capacities_labels import Capacities
+    ic = InstanceCatalog()
+    listed = ic.list_instances()
+    bad = []
+    if set(listed.keys()) != set(ref.keys()):
+        bad.append("<names>")
+    want = _REF_FULL.get(id(ref))
+    if want is None or want[0] is not ref:
+        want = _REF_FULL[id(ref)] = (ref, {n: _full(Capacities(**v)) for n, v in ref.items()})
+    for n, w in want[1].items():
+        if _full(listed.get(n)) != w or _full(ic.get_instance_capacities(instance_type=n)) != w:
+            bad.append(n)
+    return bad
+
+
+_REF_FULL = {}
+
+
+def repair_catalogue(ref):
+    """put the file's values back into whatever objects the implementation serves, and drop class-level caches"""
+    from fim.slivers.instance_catalog import InstanceCatalog
+    from fim.slivers.capacities_labels import Capacities
+    for n, v in vars(InstanceCatalog).copy().items():
+        if isinstance(v, dict) and v and all(isinstance(x, Capacities) for x in v.values()):
+            setattr(InstanceCatalog, n, None)
+    try:
+        if catalogue_damage(ref):
+            for n, c in InstanceCatalog().list_instances().items():
+                if n in ref:
+                    c.__dict__.update(Capacities(**ref[n]).__dict__)
+    except Exception:
+        pass
+
+
+# ---------------------------------------------------------------- consumers of catalogue objects (C18-r6-1 class)
+#
+# The catalogue hands out Capacities objects (get_instance_capacities, list_instances()[name]).  Consumers total them up,
+# subtract them, compare and print them - with the operators and methods that, by their contract, do not modify an operand
+# (`+`, `-`, `+=`, `-=` on a class with value semantics, `<`, `>`, `==`, str / repr / to_json / to_dict, positive_fields,
+# negative_fields, Capacities.update "DOES NOT UPDATE IN PLACE", FreeCapacity).  Whatever a consumer computes from catalogue
+# objects, every later answer of the catalogue must still be the file's: name and capacities agree, requests are mapped to a
+# sufficient minimal size.  Objects the consumer OWNS (results of + / - / update) are scribbled on afterwards, so a result
+# that is secretly the catalogue's object (e.g. `x + zero` returning x) shows as well.
+
+AUG = ("iadd", "isub")
+BIN = ("add", "sub", "update")
+USE = ("lt", "gt", "eq", "str", "repr", "to_json", "to_dict", "positive_fields", "negative_fields", "free", "list_fields")
+
+
+def capsess_values(ops, ref):
+    """pure value semantics of a consumer session: handle -> (core, ram, disk), and per op what the catalogue is asked"""
+    val, out = {}, []
+    for op in ops:
+        k = op[0]
+        if k == "get":
+            val[op[1]] = [ref[op[2]][f] for f in ("core", "ram", "disk")]
+        elif k == "fresh":
+            val[op[1]] = list(op[2:5])
+        elif k == "aug":
+            a, b = val[op[2]], val[op[3]]
+            val[op[2]] = [x + y for x, y in zip(a, b)] if op[1] == "iadd" else [x - y for x, y in zip(a, b)]
+        elif k == "bin":
+            a, b = val[op[3]], val[op[4]]
+            val[op[2]] = [x + y for x, y in zip(a, b)] if op[1] == "add" else [x - y for x, y in zip(a, b)] if op[1] == "sub" else list(a)
+        elif k == "scribble":
+            val[op[1]] = [7, 7, 7]
+        elif k == "query":
+            out.append(["caps", op[1]])
+        elif k == "pick":
+            out.append(["pick"] + list(op[1:4]))
+        elif k == "pickh":
+            out.append(["pick"] + [max(v, 0) for v in val[op[1]]])
+    return out
+
+
+def impl_capsess(req):
+    """req = ["capsess", mode, ops]: one consumer session.  Reply: the catalogue's answers in order, and after which operation (if
+    any) the catalogue stopped being the file's."""
+    from fim.slivers.instance_catalog import InstanceCatalog
+    from fim.slivers.capacities_labels import Capacities, FreeCapacity
+    _, mode, ops = req
+    ref = ref_instances()
+    repair_catalogue(ref) if catalogue_damage(ref) else None
+    shared = InstanceCatalog()
+    h, owned, out, damaged = {}, set(), [], None
+
+    def ic():
+        return shared if mode == "shared-catalog" else InstanceCatalog()
+    try:
+        for idx, op in enumerate(ops):
+            k = op[0]
+            if k == "get":
+                h[op[1]] = ic().get_instance_capacities(instance_type=op[2]) if op[3] == "by-name" else ic().list_instances()[op[2]]
+                owned.discard(op[1])
+            elif k == "fresh":
+                h[op[1]] = Capacities(core=op[2], ram=op[3], disk=op[4])
+                owned.add(op[1])
+            elif k == "aug":
+                x = h[op[2]]
+                if op[1] == "iadd":
+                    x += h[op[3]]
+                else:
+                    x -= h[op[3]]
+                h[op[2]] = x
+                owned.discard(op[2])        # `+=` may legitimately have worked in place on a consumer's own object; it is not scribbled
+            elif k == "bin":
+                a, b = h[op[3]], h[op[4]]
+                h[op[2]] = a + b if op[1] == "add" else a - b if op[1] == "sub" else Capacities.update(a)
+                owned.add(op[2])
+            elif k == "scribble":
+                if op[1] in owned:
+                    c = h[op[1]]
+                    c.core, c.ram, c.disk, c.unit = 7, 7, 7, 7
+            elif k == "use":
+                a, b = h[op[2]], h[op[3]]
+                u = op[1]
+                if u == "lt":
+                    a < b
+                elif u == "gt":
+                    a > b
+                elif u == "eq":
+                    a == b
+                elif u == "free":
+                    f = FreeCapacity(total=a, allocated=b)
+                    str(f), f.core
+                elif u == "positive_fields":
+                    a.positive_fields(["core", "ram", "disk"])
+                elif u == "str":
+                    str(a)
+                elif u == "repr":
+                    repr(a)
+                else:
+                    getattr(a, u)()
+            elif k == "query":
+                c = ic().get_instance_capacities(instance_type=op[1])
+                c2 = ic().list_instances().get(op[1])
+                if _full(c) != _full(c2):
+                    out.append(["ok", "by-name-and-listing-differ"])
+                else:
+                    out.append(["ok", None if c is None else [c.core, c.ram, c.disk]])
+            elif k in ("pick", "pickh"):
+                c = Capacities(core=op[1], ram=op[2], disk=op[3]) if k == "pick" else h[op[1]]
+                if k == "pickh" and min(c.core, c.ram, c.disk) < 0:
+                    c = Capacities(core=max(c.core, 0), ram=max(c.ram, 0), disk=max(c.disk, 0))
+                out.append(["ok", ic().map_capacities_to_instance(cap=c)])
+            if damaged is None and k in ("aug", "bin", "use", "scribble", "pickh", "pick"):
+                bad = catalogue_damage(ref)
+                if bad:
+                    damaged = {"after": idx, "op": k + ":" + str(op[1]) if k in ("aug", "bin", "use") else k, "names": bad[:3]}
+    except Exception as e:
+        out.append(["err", err_kind(e)])
+    finally:
+        if damaged is None:
+            bad = catalogue_damage(ref)
+            if bad:
+                damaged = {"after": len(ops), "op": "end", "names": bad[:3]}
+        if damaged is not None:
+            repair_catalogue(ref)
+    return ["ok", {"out": out, "damaged": damaged}]
+
+
+def capsess_requests(rng, ref, n):
+    names = list(ref)
+    seqs = []
+    # deterministic: total up three sizes, what is left of a worker, zero terms, the listing path, compare / print in between
+    a, b, c, big, small = names[len(names) // 3], names[len(names) // 2], names[-2], names[-1], names[0]
+    for how in ("by-name", "listing"):
+        seqs.append([["get", 0, a, how], ["get", 1, b, how], ["aug", "iadd", 0, 1], ["get", 2, c, how], ["aug", "iadd", 0, 2], ["query", a], ["query", b],
+                     ["pickh", 0], ["pick"] + [ref[a][f] for f in ("core", "ram", "disk")], ["get", 3, a, how], ["pickh", 3]])
+        seqs.append([["get", 0, big, how], ["get", 1, small, how], ["aug", "isub", 0, 1], ["query", big], ["query", small], ["pickh", 0],
+                     ["pick"] + [ref[big][f] for f in ("core", "ram", "disk")], ["pick", 10 ** 6, 1, 1]])
+        seqs.append([["get", 0, a, how], ["fresh", 1, 0, 0, 0], ["bin", "add", 2, 0, 1], ["scribble", 2], ["bin", "sub", 3, 0, 1], ["scribble", 3],
+                     ["bin", "update", 4, 0, 0], ["scribble", 4], ["bin", "add", 5, 1, 0], ["scribble", 5], ["query", a], ["pickh", 0]])
+        seqs.append([["get", 0, a, how], ["get", 1, b, how]] + [["use", u, 0, 1] for u in USE] + [["query", a], ["query", b], ["pickh", 0], ["pickh", 1]])
+        seqs.append([["fresh", 0, 0, 0, 0], ["get", 1, a, how], ["aug", "iadd", 0, 1], ["aug", "iadd", 0, 1], ["query", a], ["pickh", 0],
+                     ["get", 2, a, how], ["aug", "isub", 0, 2], ["query", a], ["pickh", 0]])
+    small_names = [x for x in names if ref[x]["core"] <= 8 and ref[x]["disk"] <= 100] or names
+    for _ in range(n):
+        k = rng.randrange(2, 5)
+        ops, vals, cat_handles = [], {}, set()
+
+        def v3(x):
+            return [ref[x][f] for f in ("core", "ram", "disk")]
+        for j in range(k):
+            if rng.random() < 0.75:
+                nm = rng.choice(small_names if rng.random() < 0.6 else names)
+                ops.append(["get", j, nm, rng.choice(["by-name", "listing"])])
+                vals[j] = v3(nm)
+                cat_handles.add(j)
+            else:
+                vals[j] = [rng.randrange(0, 9), rng.randrange(0, 33), rng.randrange(0, 101)]
+                ops.append(["fresh", j] + vals[j])
+        nxt = k
+        for _ in range(rng.randrange(3, 10)):
+            r = rng.random()
+            x, y = rng.randrange(k), rng.randrange(k)
+            if r < 0.35:
+                sub_ok = all(p >= q for p, q in zip(vals[x], vals[y]))
+                o = "isub" if sub_ok and rng.random() < 0.5 else "iadd"
+                ops.append(["aug", o, x, y])
+                vals[x] = [p + q if o == "iadd" else p - q for p, q in zip(vals[x], vals[y])]
+            elif r < 0.55:
+                sub_ok = all(p >= q for p, q in zip(vals[x], vals[y]))
+                o = rng.choice(["add", "update"] + (["sub"] if sub_ok else []))
+                ops.append(["bin", o, nxt, x, y])
+                ops.append(["scribble", nxt])
+                nxt += 1
+            elif r < 0.7:
+                ops.append(["use", rng.choice(USE), x, y])
+            elif r < 0.85:
+                touched = [op[2] for op in ops if op[0] == "get"]
+                ops.append(["query", rng.choice(touched) if touched else rng.choice(names)])
+            else:
+                ops.append(["pickh", x])
+        for op in [o for o in ops if o[0] == "get"][:3]:
+            ops.append(["query", op[2]])
+            ops.append(["pick"] + v3(op[2]))
+        ops.append(["pickh", rng.randrange(k)])
+        seqs.append(ops)
+    return [["capsess", m, ops] for ops in seqs for m in SEQ_MODES]
+
+
+def capsess_oracle(req, reply, ref, entries, res):
+    case = {"request": req}
+    d = reply[1]["damaged"]
+    if d is not None:
+        from fim.slivers.instance_catalog import InstanceCatalog
+        res.violation("C18:catalogue:changed-by-consumer:" + d["op"],
+                      "after a consumer computed with catalogue objects (operators / methods that do not modify their operands) the catalogue "
+                      "serves capacities that are not the resource file's: name and capacities disagree for the rest of the process",
+                      case, observed=d, expected={n: ref.get(n) for n in d["names"]})
+        return
+    for want, r in zip(capsess_values(req[2], ref), reply[1]["out"]):
+        if r[0] != "ok":
+            res.violation("C18:catalogue:consumer-session-raises:" + r[1], "a catalogue query / a value operation on catalogue objects raised", case)
+            return
+        if want[0] == "caps":
+            w = None if want[1] not in ref else [ref[want[1]][f] for f in ("core", "ram", "disk")]
+            if r[1] != w:
+                res.violation("C18:catalogue:name-caps-disagree", "a size name is served with capacities that are not the file's", case,
+                              observed=[want[1], r[1]], expected=w)
+                return
+        else:
+            sub = type(res)()
+            sizing_oracle(tuple(want[1:]), r[1], entries, sub, ref=ref)
+            for v in sub.violations:
+                res.violation(v["signature"].replace("C18:sizing:", "C18:sizing:consumer-session:"),
+                              v["what"] + " (after a consumer computed with catalogue objects)", case, observed=v.get("observed"), expected=v.get("expected"))
+                return
+
+
+# ---------------------------------------------------------------- the same component named through every path (C18-r6-3 class)
+
+def member_name(c):
+    return re.sub(r"[ -]", "_", c["Type"]) + "_" + re.sub(r"[ -]", "_", c["Model"])
+
+
+def impl_genm(req):
+    """req = ["genm", name, member, given, nsId, ids, labels, parent]: the model is named through the combined enumeration;
+    given = "member" (model_type alone) | "member+ctype+model" (all three, consistent) | "member+other" (a conflicting
+    ctype/model next to it: the code lets model_type win)"""
+    import fim.slivers.component_catalog as cc
+    from fim.slivers.attached_components import ComponentType
+    _, name, member, given, ns_id, ids, labels, parent = req
+    labs = None if labels is None else [_mk_label(s) for s in labels]
+    try:
+        m = cc.ComponentModelType[member]
+    except KeyError:
+        return ["err", "bad-member"]
+    kw = {}
+    if given == "member+ctype+model":
+        ent = cc.ComponentModelTypeMap[m]
+        kw = {"ctype": ComponentType[ent["Type"]], "model": ent["Model"]}
+    elif given == "member+other":
+        ent = cc.ComponentModelTypeMap[m]
+        kw = {"ctype": ComponentType.GPU if ent["Type"] != "GPU" else ComponentType.SharedNIC, "model": "Tesla T4"}
+    try:
+        cs = cc.ComponentCatalog().generate_component(name=name, model_type=m, ns_node_id=ns_id,
+                                                      interface_node_ids=None if ids is None else list(ids),
+                                                      interface_labels=labs, parent_name=parent, **kw)
+    except Exception as e:
+        return ["err", err_kind(e)]
+    out = canon_comp(cs, ns_id, ids, labs)
+    _poison(cs, labs)
+    return ["ok", out]
+
+
+def genm_requests(cat, rng, thorough):
+    reqs = []
+    shapes = [["none"], ["scalar", len(BDF_SCALAR)], ["list", 1], ["list", 3], ["list", 0]]
+    for c in cat:
+        n = len(c.get("Interfaces", {}) or {})
+        for given in ("member", "member+ctype+model", "member+other"):
+            for parent in (None, "par"):
+                for ids in (None, ["id%d" % i for i in range(n)]):
+                    lab_opts = [None, [shapes[(i + 3) % 5] for i in range(n)], [rng.choice(shapes) for i in range(n)]]
+                    if thorough:
+                        lab_opts += [[shapes[(i + 1) % 5] for i in range(n)], [["list", 2]] * (n + 1)]
+                    for labels in lab_opts:
+                        reqs.append(["genm", "m-" + str(len(reqs) % 5), member_name(c), given, "ns-1" if parent else None, ids, labels, parent])
+    reqs.append(["genm", "uu", "GPU_NoSuchModel", "member", None, None, None, None])
+    return reqs
+
+
+def genm_as_gen(cat, r):
+    """the request a caller naming the same entry by (ctype, model) would make"""
+    for c in cat:
+        if member_name(c) == r[2]:
+            return ["gen", r[1], c["Model"], c["Type"], r[4], r[5], r[6], r[7]]
+    return None
+
+
+def impl_topo(req):
+    """req = ["topo", member, path]: the component is added to a node of an ExperimentTopology (fim.user), named by
+    (ctype, model) or by the combined enumeration, and read back through the topology"""
+    import fim.slivers.component_catalog as cc
+    from fim.user.topology import ExperimentTopology
+    from fim.slivers.attached_components import ComponentType
+    _, member, path = req
+    try:
+        m = cc.ComponentModelType[member]
+        ent = cc.ComponentModelTypeMap[m]
+        t = ExperimentTopology()
+        n = t.add_node(name="n1", site="RENC")
+        if path == "model_type":
+            c = n.add_component(name="c1", model_type=m)
+        else:
+            c = n.add_component(name="c1", ctype=ComponentType[ent["Type"]], model=ent["Model"])
+        c = t.nodes["n1"].components["c1"]
+        ifs = []
+        for k, i in c.interfaces.items():
+            cap = i.capacities
+            ifs.append({"name": k, "kind": str(i.type), "bw": cap.bw, "units": cap.unit, "local": i.labels.local_name if i.labels else None})
+        return ["ok", {"type": str(c.type), "model": c.model, "details": c.details, "ifaces": sorted(ifs, key=lambda x: x["name"])}]
+    except Exception as e:
+        return ["err", err_kind(e)]
+
+
+def topo_view(req, m):
+    """the model's generated component as impl_topo reads it back"""
+    if m[0] != "ok":
+        return m
+    g = m[1]
+    return ["ok", {"type": g["type"], "model": g["model"], "details": g["details"],
+                   "ifaces": sorted(({"name": i["name"], "kind": i["kind"] or "None", "bw": i["bw"], "units": i["units"],
+                                      "local": i["localNames"][0] if not i["localIsList"] else i["localNames"]} for i in g["ifaces"]),
+                                    key=lambda x: x["name"])}]
+
+
+def topo_oracle(cat, req, reply, res):
+    ent = [c for c in cat if member_name(c) == req[1]][0]
+    case = {"request": req}
+    sig = "C18:component:%s:topology:%s:" % (ent["Type"], req[2])
+    if reply[0] != "ok":
+        res.violation(sig + "raises:" + reply[1], "adding a catalogued component to a topology node raised", case)
+        return
+    g = reply[1]
+    if [g["type"], g["model"], g["details"]] != [ent["Type"], ent["Model"], ent["Details"]]:
+        res.violation(sig + "type-model-details", "component added to a topology differs from its catalogue entry", case, observed=g)
+    ifs = ent.get("Interfaces") or {}
+    want = sorted(({"name": "c1-" + p, "kind": "SharedPort" if ent["Type"] == "SharedNIC" else "DedicatedPort",
+                    "bw": 0 if ent["Type"] == "SharedNIC" else int(s), "units": 1, "local": p} for p, s in ifs.items()), key=lambda x: x["name"])
+    if g["ifaces"] != want:
+        k = next((f for a, b in zip(g["ifaces"], want) for f in ("name", "kind", "bw", "units", "local") if a[f] != b[f]), "interfaces")
+        res.violation(sig + {"bw": "speed"}.get(k, k), "interfaces of a component added to a topology are not the catalogued ones (names, kinds, speeds, unit counts)",
+                      case, observed=g["ifaces"], expected=want)
+
+
 # ---------------------------------------------------------------- pipeline entry points
 
 _CACHE = {}   # implementation replies, shared by correspondence() and oracle() of one run
@@ -551,6 +943,12 @@ _CACHE = {}   # implementation replies, shared by correspondence() and oracle() 
 def _run(ctx, res, with_model, with_oracle, thorough=None):
     thorough = ctx.thorough if thorough is None else thorough
     from fim.slivers.instance_catalog import InstanceCatalog
+    ref = ref_instances()
+    if catalogue_damage(ref):
+        repair_catalogue(ref)
+        if with_oracle and catalogue_damage(ref):
+            res.violation("C18:catalogue:differs-from-resource-file", "the catalogue the implementation serves is not instance_sizes.json",
+                          {"names": catalogue_damage(ref)[:5]})
     inst = InstanceCatalog().list_instances()
     entries = [(k, (v.core, v.ram, v.disk)) for k, v in inst.items()]
     dims = _grid(thorough)
@@ -559,8 +957,11 @@ def _run(ctx, res, with_model, with_oracle, thorough=None):
     off = offgrid(ctx.sub_rng("offgrid"), 400 if not thorough else 4000)
     sess = session_requests(cat, ctx.sub_rng("session"))
     seqs = pickseq_requests(ctx.sub_rng("pickseq"), entries, 150 if not thorough else 1500)
+    csess = capsess_requests(ctx.sub_rng("capsess"), ref, 120 if not thorough else 1200)
+    mreqs = genm_requests(cat, ctx.sub_rng("genm"), thorough)
+    treqs = [["topo", member_name(c), path] for c in cat for path in ("ctype+model", "model_type")]
     reqs = ([["pick"] + list(r) for r in grid] + [["pick"] + r for r in off] + seqs + [["caps", n] for n, _ in entries[::7]] + [["caps", "no.such"]]
-            + [["enum"]] + creqs + sess)
+            + [["enum"]] + creqs + sess + mreqs + treqs + csess)
     key = (thorough, ctx.seed)
     impl = _CACHE.get(key)
     for r in (reqs if impl is None else []):
@@ -577,6 +978,12 @@ def _run(ctx, res, with_model, with_oracle, thorough=None):
             impl.append(impl_session(r))
         elif r[0] == "pickseq":
             impl.append(impl_pickseq(r))
+        elif r[0] == "capsess":
+            impl.append(impl_capsess(r))
+        elif r[0] == "genm":
+            impl.append(impl_genm(r))
+        elif r[0] == "topo":
+            impl.append(impl_topo(r))
         else:
             impl.append(impl_gen(r))
     nall = len(entries)
@@ -590,7 +997,19 @@ def _run(ctx, res, with_model, with_oracle, thorough=None):
             res.count("pick:" + ("none-fit" if nfit == 0 else "all-fit" if nfit == nall else "some-fit"))
             if 0 < nfit < nall:
                 res.nontrivial.add(canon(r))
-        elif r[0] == "gen" and i[0] == "ok" and i[1]["ifaces"]:
+        elif r[0] in ("gen", "genm") and i[0] == "ok" and i[1]["ifaces"]:
+            res.nontrivial.add(canon(r))
+            if r[0] == "genm":
+                res.count("genm:" + r[3])
+        elif r[0] == "topo":
+            res.count("topo:" + r[2])
+            if i[0] == "ok" and i[1]["ifaces"]:
+                res.nontrivial.add(canon(r))
+        elif r[0] == "capsess":
+            res.count("capsess:" + r[1])
+            for o in r[2]:
+                res.count("capsess:op:" + o[0] + (":" + o[1] if o[0] in ("aug", "bin", "use") else ":" + o[3] if o[0] == "get" else ""))
+            res.evaluations += len(i[1]["out"]) - 1
             res.nontrivial.add(canon(r))
         elif r[0] == "session":
             res.count("session:components", len(i[1]))
@@ -603,13 +1022,18 @@ def _run(ctx, res, with_model, with_oracle, thorough=None):
             res.evaluations += len(i[1]) - 1
             res.nontrivial.add(canon(r))
     if with_model:
-        per = [model_lines(r) for r in reqs]
+        per = [model_lines(r, cat, ref) for r in reqs]
         flat = LeanDriver("C18").run([json.dumps(l) for ls in per for l in ls])
         model, at = [], 0
         for r, ls in zip(reqs, per):
             chunk = flat[at:at + len(ls)]
             at += len(ls)
-            model.append(json.dumps(["ok", [json.loads(x) for x in chunk]]) if r[0] == "pickseq" else chunk[0])
+            if r[0] == "pickseq":
+                model.append(json.dumps(["ok", [json.loads(x) for x in chunk]]))
+            elif r[0] == "topo":
+                model.append(json.dumps(topo_view(r, json.loads(chunk[0]))))
+            else:
+                model.append(chunk[0])
         for r, i, m in zip(reqs, impl, model):
             mj = json.loads(m)
             if mj != json.loads(json.dumps(i)):
@@ -629,6 +1053,17 @@ def _run(ctx, res, with_model, with_oracle, thorough=None):
                 session_oracle(r, i, res)
             elif r[0] == "pickseq":
                 pickseq_oracle(r, i, entries, res)
+            elif r[0] == "capsess":
+                capsess_oracle(r, i, ref, [(k, tuple(v[f] for f in ("core", "ram", "disk"))) for k, v in ref.items()], res)
+            elif r[0] == "genm":
+                g = genm_as_gen(cat, r)
+                if g is None:
+                    if i[0] == "ok":
+                        res.violation("C18:component:unknown-member-accepted", "a member that is not in the enumeration was generated", {"request": r})
+                elif r[3] != "member+other":      # a conflicting (ctype, model) next to the member: which one is meant is not the property's business
+                    comp_oracle(cat, g, i, res, case={"request": r}, path=":by-" + r[3])
+            elif r[0] == "topo":
+                topo_oracle(cat, r, i, res)
         enum_oracle(cat, res)
         res.sample({"request": reqs[3], "impl": impl[3], "oracle": "sufficient / Pareto-minimal / fallback / name-capacities"})
 
@@ -655,6 +1090,15 @@ def replay(ctx, payload):
     elif "request" in case and isinstance(case["request"], list) and case["request"] and case["request"][0] == "pickseq":
         inst = InstanceCatalog().list_instances()
         pickseq_oracle(case["request"], impl_pickseq(case["request"]), [(k, (v.core, v.ram, v.disk)) for k, v in inst.items()], r)
+    elif "request" in case and isinstance(case["request"], list) and case["request"] and case["request"][0] == "capsess":
+        ref = ref_instances()
+        capsess_oracle(case["request"], impl_capsess(case["request"]), ref, [(k, tuple(v[f] for f in ("core", "ram", "disk"))) for k, v in ref.items()], r)
+    elif "request" in case and isinstance(case["request"], list) and case["request"] and case["request"][0] == "genm":
+        cat, _ = comp_requests(ctx.sub_rng("comp"), False)
+        comp_oracle(cat, genm_as_gen(cat, case["request"]), impl_genm(case["request"]), r)
+    elif "request" in case and isinstance(case["request"], list) and case["request"] and case["request"][0] == "topo":
+        cat, _ = comp_requests(ctx.sub_rng("comp"), False)
+        topo_oracle(cat, case["request"], impl_topo(case["request"]), r)
     elif "request" in case and isinstance(case["request"], list) and case["request"] and case["request"][0] == "gen":
         cat, _ = comp_requests(ctx.sub_rng("comp"), False)
         comp_oracle(cat, case["request"], impl_gen(case["request"]), r)
